@@ -38,3 +38,28 @@ def unicast_sub_after_terminal_with_backlog(case, mismatch):
 
 
 PREDICATES['unicast_sub_after_terminal_with_backlog'] = unicast_sub_after_terminal_with_backlog
+
+
+def share_stale_refcount_after_reset(case, mismatch):
+    """ShareGauge trace rejected at its `end` event (upstream not released although every subscriber left), in a run where the source ended
+    (srcEnd) and a NEW execution was subscribed afterwards while a Subscribe call that had started before the end was still in flight."""
+    evs = case['events']
+    if (mismatch.get('event') or {}).get('e') != 'end':
+        return False
+    ended_at = [k for k, e in enumerate(evs) if e['e'] == 'srcEnd']
+    if not ended_at:
+        return False
+    k0 = ended_at[-1] if any(e['e'] == 'srcSub' for e in evs[ended_at[-1]:]) else ended_at[0]
+    if not any(e['e'] == 'srcSub' for e in evs[k0:]):
+        return False
+    # a subscribe call in flight across the source's end
+    inflight = {}
+    for k, e in enumerate(evs[:k0]):
+        if e['e'] == 'inv' and e['s'] in ('sub', 'unsub'):     # a reference of the finished execution not yet taken / given back
+            inflight[e['p']] = k
+        elif e['e'] == 'ret':
+            inflight.pop(e['p'], None)
+    return bool(inflight)
+
+
+PREDICATES['share_stale_refcount_after_reset'] = share_stale_refcount_after_reset
